@@ -57,15 +57,17 @@ type xcase struct {
 	// Delivered is the number of payload bytes actually sent after the header
 	// before the stream ends (0 = tailBytes).
 	Delivered int `json:"delivered,omitempty"`
+	// NonFin: the frame announcing Length is itself non-final.
+	NonFin bool `json:"non_final,omitempty"`
 }
 
 func (c xcase) key() string {
-	return fmt.Sprintf("%s:%d:%v:%d:%v:%d", c.Entry, c.Length, c.Masked, c.Op, c.Frag, c.Delivered)
+	return fmt.Sprintf("%s:%d:%v:%d:%v:%d:%v", c.Entry, c.Length, c.Masked, c.Op, c.Frag, c.Delivered, c.NonFin)
 }
 
 func parseCase(s string) (c xcase, err error) {
 	p := strings.Split(s, ":")
-	if len(p) != 6 {
+	if len(p) != 7 {
 		return c, fmt.Errorf("bad case %q", s)
 	}
 	c.Entry = p[0]
@@ -80,6 +82,7 @@ func parseCase(s string) (c xcase, err error) {
 	c.Op = byte(op)
 	c.Frag = p[4] == "true"
 	c.Delivered, err = strconv.Atoi(p[5])
+	c.NonFin = p[6] == "true"
 	return c, err
 }
 
@@ -87,7 +90,7 @@ func parseCase(s string) (c xcase, err error) {
 // opcode c.Op announcing c.Length, followed by tailBytes bytes of payload and
 // the end of the stream.
 func (c xcase) stream() []byte {
-	h := ref.Header{Fin: true, Op: c.Op, Masked: c.Masked, Length: c.Length}
+	h := ref.Header{Fin: !c.NonFin, Op: c.Op, Masked: c.Masked, Length: c.Length}
 	if c.Masked {
 		h.Mask = [4]byte{1, 2, 3, 4}
 	}
@@ -142,6 +145,9 @@ func (c xcase) headerLen() int {
 
 func (c xcase) opName() string {
 	n := map[byte]string{ref.OpCont: "continuation", ref.OpBinary: "binary", ref.OpPing: "ping", ref.OpPong: "pong", ref.OpClose: "close"}[c.Op]
+	if c.NonFin {
+		n += "-nonfinal"
+	}
 	if c.Frag {
 		n += "-after-fragment"
 	}
@@ -180,9 +186,11 @@ func (c xcase) call(src *tx.Src) (got int, err error) {
 		rd := &wsutil.Reader{Source: src, State: st, MaxFrameSize: capLen}
 		_, err = rd.NextFrame()
 	case "ReadFrame":
-		var f ws.Frame
-		f, err = ws.ReadFrame(src)
-		got = len(f.Payload)
+		for err == nil {
+			var f ws.Frame
+			f, err = ws.ReadFrame(src)
+			got += len(f.Payload)
+		}
 	case "ReadMessage":
 		var m []wsutil.Message
 		m, err = wsutil.ReadMessage(src, st, nil)
@@ -200,6 +208,20 @@ func (c xcase) call(src *tx.Src) (got int, err error) {
 		if h, err = rd.NextFrame(); err == nil {
 			if h.OpCode.IsControl() {
 				err = handler(h, rd)
+			} else {
+				var p []byte
+				p, err = io.ReadAll(rd)
+				got = len(p)
+			}
+		}
+	case "SkipCheck+ReadAll", "SkipCheck+Discard":
+		// SkipHeaderCheck is a documented option: nothing vets the headers,
+		// the reader still has to stream (OnIntermediate unset: the reader
+		// itself drops the payload of interleaved control frames)
+		rd := &wsutil.Reader{Source: src, State: st, SkipHeaderCheck: true}
+		if _, err = rd.NextFrame(); err == nil {
+			if c.Entry == "SkipCheck+Discard" {
+				err = rd.Discard()
 			} else {
 				var p []byte
 				p, err = io.ReadAll(rd)
@@ -278,6 +300,13 @@ func TestExtremeChild(t *testing.T) {
 			// these read with io.ReadAll-style loops: make sure the message
 			// reader does not stall on this stream before entering them
 			if err := preCheck(frameOpts{state: c.state()}, c.stream(), c.Entry); err != nil {
+				res.Stall = err.Error()
+				b, _ := json.Marshal(res)
+				fmt.Fprintf(os.Stdout, "%s%s\n", childMarker, b)
+				continue
+			}
+		case "SkipCheck+ReadAll":
+			if err := preCheckWith(frameOpts{state: c.state(), skip: true, inter: interNil, bufSize: 512}, c.stream(), c.Entry); err != nil {
 				res.Stall = err.Error()
 				b, _ := json.Marshal(res)
 				fmt.Fprintf(os.Stdout, "%s%s\n", childMarker, b)
@@ -431,6 +460,45 @@ func judge(c xcase, results map[string]xresult, tail string) xverdict {
 		return xverdict{true, fmt.Sprintf("allocated %d bytes (address space +%d) for a stream that delivers %d payload bytes (bound %d)", r.Alloc, r.Sys, c.delivered(), c.allocLimit()), r}
 	}
 	return xverdict{false, "", r}
+}
+
+// runBatches runs the cases size at a time in one child each; the cases of a
+// batch in which a child died are run again one per child, so that the death
+// is attributed to a single input.
+func runBatches(t *testing.T, cases []xcase, size int) map[string]xverdict {
+	out := map[string]xverdict{}
+	var again []xcase
+	var mu sync.Mutex
+	var wg sync.WaitGroup
+	sem := make(chan struct{}, 8)
+	for i := 0; i < len(cases); i += size {
+		j := i + size
+		if j > len(cases) {
+			j = len(cases)
+		}
+		batch := cases[i:j]
+		wg.Add(1)
+		sem <- struct{}{}
+		go func() {
+			defer wg.Done()
+			defer func() { <-sem }()
+			results, _, err := runChildOnce(batch)
+			mu.Lock()
+			defer mu.Unlock()
+			if err != nil || len(results) < len(batch) {
+				again = append(again, batch...)
+				return
+			}
+			for _, c := range batch {
+				out[c.key()] = judge(c, results, "")
+			}
+		}()
+	}
+	wg.Wait()
+	for k, v := range runEach(t, again) {
+		out[k] = v
+	}
+	return out
 }
 
 func runEach(t *testing.T, cases []xcase) map[string]xverdict {
@@ -595,19 +663,33 @@ func TestExtremeLengths(t *testing.T) {
 	// streaming readers, control frames (refused by the header check before
 	// the control handler sizes its buffer) everywhere, and the same after a
 	// non-final fragment (continuation / intermediate control frame)
-	var rest []xcase
-	for _, e := range []string{"ReadMessage", "ReadData", "Reader+ReadAll"} {
-		for _, shape := range []struct {
-			op   byte
-			frag bool
-		}{{ref.OpBinary, false}, {ref.OpPing, false}, {ref.OpClose, false}, {ref.OpPong, false}, {ref.OpCont, true}, {ref.OpPing, true}, {ref.OpClose, true}} {
-			if e == "ReadMessage" && shape.op == ref.OpBinary {
+	var small, rest []xcase
+	type shapeT struct {
+		op     byte
+		frag   bool
+		nonFin bool
+	}
+	var shapes []shapeT
+	for _, op := range []byte{ref.OpBinary, ref.OpText, ref.OpCont, ref.OpPing, ref.OpPong, ref.OpClose} {
+		for _, frag := range []bool{false, true} {
+			for _, nonFin := range []bool{false, true} {
+				shapes = append(shapes, shapeT{op, frag, nonFin})
+			}
+		}
+	}
+	tableLens := lengthTable
+	if !hx.Thorough() {
+		tableLens = []int64{1 << 31, 1 << 40, 1<<63 - 1}
+	}
+	for _, e := range []string{"ReadFrame", "ReadMessage", "ReadData", "Reader+ReadAll", "SkipCheck+ReadAll", "SkipCheck+Discard"} {
+		for _, sh := range shapes {
+			if (e == "ReadMessage" || e == "ReadFrame") && sh.op == ref.OpBinary && !sh.frag && !sh.nonFin {
 				continue // the F7 cases above
 			}
-			for _, l := range lengthTable {
+			for _, l := range tableLens {
 				for _, m := range []bool{false, true} {
 					if hx.Mine(n) {
-						rest = append(rest, xcase{Entry: e, Length: l, Masked: m, Op: shape.op, Frag: shape.frag})
+						small = append(small, xcase{Entry: e, Length: l, Masked: m, Op: sh.op, Frag: sh.frag, NonFin: sh.nonFin})
 					}
 					n++
 				}
@@ -634,6 +716,10 @@ func TestExtremeLengths(t *testing.T) {
 		}
 	}
 	vs := runEach(t, rest)
+	for k, v := range runBatches(t, small, 24) {
+		vs[k] = v
+	}
+	rest = append(small, rest...)
 	for _, c := range rest {
 		v, ok := vs[c.key()]
 		if !ok {
